@@ -159,10 +159,19 @@ pub fn not(vm: &mut Vm) -> Result<VCell, Error> {
 pub fn is_list(vm: &mut Vm) -> Result<VCell, Error> {
     pop_argc(vm, 1, Some(1), "list?")?;
     let mut rest = vm.heap.get(vm.stack.pop()?);
+    // The "hare" moves two pairs for every pair "tortoise" moves: they can only
+    // meet again if the cdr chain is circular, and a circular list is not a list.
+    let mut tortoise = rest.clone();
     loop {
-        if !rest.is_pair() {
-            return Ok(rest.is_nil().into());
+        for _ in 0..2 {
+            if !rest.is_pair() {
+                return Ok(rest.is_nil().into());
+            }
+            rest = vm.heap.get(&rest.as_cdr()?);
         }
-        rest = vm.heap.get(&rest.as_cdr()?);
+        tortoise = vm.heap.get(&tortoise.as_cdr()?);
+        if rest.is_pair() && rest == tortoise {
+            return Ok(false.into());
+        }
     }
 }
